@@ -29,7 +29,7 @@ def run(tier):
     lean_ok = lean_gate(chk, THEOREMS)
     quick = tier == "quick"
     n_gen = 60 if quick else 1200
-    nmax = 4 if quick else 5
+    nmax = 8 if quick else 10
     timeout = 40 if quick else 150
     cases = pipeline.load_corpus(PROP) + pipeline.generate_cases(n_gen, f"{PROP}-{tier}")
     recs = pipeline.analyze_cases(cases, nmax=nmax, timeout=timeout, progress=50) if lean_ok else []
